@@ -361,3 +361,17 @@ def write_replay(prop, seed, n, data):
         json.dump(data, fp, indent=1, default=str)
         fp.write("\n")
     return path
+
+
+def run_coqchk(prop):
+    """thorough tier: re-check Props/<prop>.vo and everything it depends on with the independent checker;
+    returns (ok, axioms, summary_text)"""
+    rc, out, err = sh(["coqchk", "-silent", "-o", "-Q", "theories", "Cinco", "Cinco.Props." + prop], cwd=COQ, timeout=3000)
+    txt = out + err
+    m = re.search(r"\* Axioms:(.*?)\n\s*\n\* Constants/Inductives relying on type-in-type:(.*?)\n\s*\n\* Constants/Inductives relying on unsafe \(co\)fixpoints:(.*?)\n\s*\n\* Inductives whose positivity is assumed:(.*?)\n", txt, re.S)
+    if rc or not m:
+        return False, [], txt[-2000:]
+    axioms = [a.strip() for a in m.group(1).split("\n") if a.strip() and a.strip() != "<none>"]
+    unsafe = [x.strip() for g in (m.group(2), m.group(3), m.group(4)) for x in g.split("\n") if x.strip() and x.strip() != "<none>"]
+    ok = not unsafe and all(a.split()[0] in ALLOWED_AXIOMS or a.split(".")[-1] in ALLOWED_AXIOMS for a in axioms)
+    return ok, axioms + unsafe, txt[txt.find("CONTEXT SUMMARY"):][:1500]
